@@ -135,3 +135,24 @@ pub fn cursor_follows_push(
     }
     Ok(s)
 }
+
+// ---- inliner: a push / fallible step / pop sequence living in a private helper ----
+fn check_small(x: u32) -> Result<u32, ()> {
+    if x > 3 {
+        Err(())
+    } else {
+        Ok(x)
+    }
+}
+
+fn in_scope(stack: &mut Vec<u32>, x: u32) -> Result<u32, ()> {
+    stack.push(x);
+    let r = check_small(x)?;
+    stack.pop();
+    Ok(r)
+}
+
+pub fn uses_scope_helper(stack: &mut Vec<u32>, x: u32) -> Result<u32, ()> {
+    let r = in_scope(stack, x)?;
+    Ok(r + 1)
+}
